@@ -11,4 +11,12 @@ if ok:
         print(out.strip().split('\n')[1] if '\n' in out else out)
     except Exception as e:
         print('verus not runnable:', e); ok = False
+# warm the build of the bounded replay crate (used by thorough runs, undecided cases and C09); failure is not fatal
+try:
+    import os
+    sys.path.insert(0, os.path.dirname(os.path.abspath(__file__)))
+    import replay
+    print('replay oracle binary:', replay.build('/repo'))
+except Exception as e:
+    print('replay crate not built:', e)
 sys.exit(0 if ok else 1)
